@@ -446,11 +446,11 @@ func (m *Model) stepSign(op Op, obs Obs) []Finding {
 		return nil
 	}
 	if obs.Err {
-		if st == Boundary {
-			delete(m.Keys, op.Blob) // reaped at the boundary instant
-			return nil
-		}
 		if mayRefuse {
+			return nil // also at the boundary: the refusal says nothing about reaping
+		}
+		if st == Boundary {
+			delete(m.Keys, op.Blob) // reaped at the boundary instant (no other reason to fail)
 			return nil
 		}
 		return one("sign-present-key-failed", "no signature for a held, unexpired key on an unlocked agent (flags=%d)", op.Flags)
